@@ -254,6 +254,7 @@ class GenericQuantity(object):
         (other_value, other_units) = self._unpack_qty(other)
         return self._build(other_value/self_value, other_units/self_units)
     __rtruediv__ = __rdiv__
+    __rfloordiv__ = __rdiv__    # '//' is this class's division, both ways
 
     def __pow__(self, other):
         (self_value, self_units) = self._unpack_qty(self)
@@ -439,6 +440,7 @@ class ArrayQuantity(GenericQuantity, np.ndarray):
     _reflected_operators = {
         np.add: '__radd__', np.subtract: '__rsub__',
         np.multiply: '__rmul__', np.true_divide: '__rtruediv__',
+        np.floor_divide: '__rfloordiv__',
         np.power: '__rpow__', np.less: '__gt__', np.less_equal: '__ge__',
         np.greater: '__lt__', np.greater_equal: '__le__',
         np.equal: '__eq__', np.not_equal: '__ne__'}
